@@ -106,3 +106,9 @@ impl<K: Ord + Copy, V: KeyValue<K>> SetCollection<K, V> for SetList<V> {
         self.buffer.clear();
     }
 }
+#[cfg(feature = "itree_verif")]
+impl<V: Clone> SetList<V> {
+    pub fn verif_state(&self) -> Vec<V> {
+        self.buffer.clone()
+    }
+}
